@@ -294,6 +294,20 @@ def check_structured(case) -> Outcome:
         out.fail("update", f"{spec} update {case['update']}: {to_model(u)} vs {exp_u}")
     if to_model(s) != m:
         out.fail("update-mutates-original", f"{spec}")
+    # ... and the merged container is a new one: a later in-place edit of either never shows in the other
+    out.label("update:empty" if not upd else "update:keys")
+    for which in ("result", "original"):
+        s2 = build(spec)
+        u2 = s2._update(**{k: build(v) for k, v in case["update"].items()})
+        before = to_model(u2 if which == "original" else s2)
+        if which == "result":
+            u2["zz"] = "edit"
+            u2.root = "edit"
+        else:
+            s2["zz"] = "edit"
+            s2.root = "edit"
+        if to_model(u2 if which == "original" else s2) != before:
+            out.fail("update-result-aliases-original", f"{spec} update {case['update']}: an in-place edit of the {which} shows in the other container", edited=which, empty=not upd)
     # merge
     others = [build(o) for o in case["merge"]]
     oms = [model(o) for o in case["merge"]]
